@@ -776,6 +776,155 @@ Qed.
 End PairLoop.
 
 (* ---------------------------------------------------------------------------------------------- *)
+(* single-peakedness of one vote on an axis, in the "no valley" form used for completeness          *)
+
+Definition vf (v : list N) (A : list N) : Prop :=
+  forall l1 b l2, A = l1 ++ b :: l2 -> forall a c, In a l1 -> In c l2 -> ~ (better v a b /\ better v c b).
+
+Lemma vf_valley v A : vf v A <-> valley (map (idxN v) A).
+Proof.
+  split.
+  - intros H (pa & pb & pc & H3 & Hab & Hcb).
+    apply sub3_map_inv in H3. destruct H3 as (a & b & c & (l1 & l2 & l3 & l4 & E) & <- & <- & <-).
+    apply (H (l1 ++ a :: l2) b (l3 ++ c :: l4)) with (a := a) (c := c).
+    + rewrite E. now rewrite <- app_assoc.
+    + apply in_or_app. right. now left.
+    + apply in_or_app. right. now left.
+    + split; assumption.
+  - intros H l1 b l2 E a c Ha Hc [H1 H2]. apply H.
+    apply in_split in Ha. destruct Ha as (p1 & p2 & ->). apply in_split in Hc. destruct Hc as (q1 & q2 & ->).
+    exists (idxN v a), (idxN v b), (idxN v c). split; [|split; assumption].
+    apply sub3_map. exists p1, p2, q1, q2. rewrite E. now rewrite <- app_assoc.
+Qed.
+
+Lemma vf_block v l B r : vf v (l ++ B ++ r) -> vf v B.
+Proof.
+  intros H l1 b l2 E a c Ha Hc. apply (H (l ++ l1) b (l2 ++ r)).
+  - rewrite E. rewrite <- !app_assoc. reflexivity.
+  - apply in_or_app. now right.
+  - apply in_or_app. now left.
+Qed.
+
+Lemma vf_rev v A : vf v A -> vf v (rev A).
+Proof.
+  intros H l1 b l2 E a c Ha Hc [H1 H2].
+  assert (E' : A = rev l2 ++ b :: rev l1).
+  { rewrite <- (rev_involutive A), E, rev_app_distr. simpl. now rewrite <- app_assoc. }
+  apply (H _ _ _ E' c a); [now apply -> in_rev|now apply -> in_rev|auto].
+Qed.
+
+Lemma vf_worst_end v B z : NoDup B -> vf v B -> In z B -> (forall r, In r B -> r <> z -> better v r z) ->
+  (exists B', B = z :: B') \/ (exists B', B = B' ++ [z]).
+Proof.
+  intros Hnd H Hz Hw. apply in_split in Hz. destruct Hz as (l1 & l2 & ->).
+  destruct l1 as [|a l1]; [left; exists l2; reflexivity|].
+  destruct l2 as [|c l2]; [right; exists (a :: l1); reflexivity|]. exfalso.
+  apply (H (a :: l1) z (c :: l2) eq_refl a c); [now left|now left|].
+  split; apply Hw.
+  - now left.
+  - intros ->. simpl in Hnd. inversion Hnd as [|? ? Hn _]; subst. apply Hn. apply in_or_app. right. now left.
+  - apply in_or_app. right. right. now left.
+  - intros ->. apply NoDup_app_r in Hnd. inversion Hnd as [|? ? Hn _]; subst. apply Hn. now left.
+Qed.
+
+Lemma split2 {T} (m r l1 l2 : list T) b : m ++ r = l1 ++ b :: l2 ->
+  (exists post, m = l1 ++ b :: post /\ l2 = post ++ r) \/ (exists pre, r = pre ++ b :: l2 /\ l1 = m ++ pre).
+Proof.
+  revert l1; induction m as [|a m IH]; intros l1 E.
+  - right. exists l1. auto.
+  - destruct l1 as [|a' l1]; simpl in E.
+    + injection E as E1 E2. subst a. left. exists m. auto.
+    + injection E as E1 E2. subst a'. destruct (IH l1 E2) as [(post & -> & ->)|(pre & -> & ->)].
+      * left. exists post. auto.
+      * right. exists pre. auto.
+Qed.
+
+Lemma split3 {T} (l m r l1 l2 : list T) b : l ++ m ++ r = l1 ++ b :: l2 ->
+  (exists post, l = l1 ++ b :: post /\ l2 = post ++ m ++ r) \/
+  (exists pre post, m = pre ++ b :: post /\ l1 = l ++ pre /\ l2 = post ++ r) \/
+  (exists pre, r = pre ++ b :: l2 /\ l1 = l ++ m ++ pre).
+Proof.
+  intros E. apply split2 in E. destruct E as [(post & -> & ->)|(pre & E & ->)].
+  - left. exists post. auto.
+  - apply split2 in E. destruct E as [(post & -> & ->)|(pre' & -> & ->)].
+    + right. left. exists pre, post. auto.
+    + right. right. exists pre'. auto.
+Qed.
+
+(* reversing a block whose elements are all above the outside keeps the vote single-peaked *)
+Lemma vf_rev_block v ol B or_ : vf v (ol ++ B ++ or_) ->
+  (forall b p, In b B -> In p (ol ++ or_) -> better v b p) -> vf v (ol ++ rev B ++ or_).
+Proof.
+  intros H Hab l1 b l2 E a c Ha Hc [H1 H2]. apply split3 in E.
+  destruct E as [(post & -> & ->)|[(pre & post & Em & -> & ->)|(pre & -> & ->)]].
+  - apply (H l1 b (post ++ B ++ or_)) with (a := a) (c := c); auto.
+    + now rewrite <- app_assoc.
+    + apply in_app_or in Hc. apply in_or_app. destruct Hc as [Hc|Hc]; [now left|right].
+      apply in_app_or in Hc. apply in_or_app. destruct Hc as [Hc|Hc]; [left; now apply in_rev|now right].
+  - assert (EB : B = rev post ++ b :: rev pre).
+    { rewrite <- (rev_involutive B), Em, rev_app_distr. simpl. now rewrite <- app_assoc. }
+    assert (HbB : In b B) by (rewrite EB; apply in_or_app; right; now left).
+    assert (Ha' : In a pre).
+    { apply in_app_or in Ha. destruct Ha as [Ha|Ha]; [|assumption]. exfalso.
+      assert (Hb := Hab b a HbB (in_or_app _ _ _ (or_introl Ha))). unfold better in *. lia. }
+    assert (Hc' : In c post).
+    { apply in_app_or in Hc. destruct Hc as [Hc|Hc]; [assumption|]. exfalso.
+      assert (Hb := Hab b c HbB (in_or_app _ _ _ (or_intror Hc))). unfold better in *. lia. }
+    apply (H (ol ++ rev post) b (rev pre ++ or_)) with (a := c) (c := a).
+    + rewrite EB. rewrite <- !app_assoc. reflexivity.
+    + apply in_or_app. right. now apply -> in_rev.
+    + apply in_or_app. left. now apply -> in_rev.
+    + auto.
+  - apply (H (ol ++ B ++ pre) b l2) with (a := a) (c := c); auto.
+    + rewrite <- !app_assoc. reflexivity.
+    + apply in_app_or in Ha. apply in_or_app. destruct Ha as [Ha|Ha]; [now left|right].
+      apply in_app_or in Ha. apply in_or_app. destruct Ha as [Ha|Ha]; [left; now apply in_rev|now right].
+Qed.
+
+(* lists sorted by decreasing preference *)
+Definition decr (v : list N) (B : list N) : Prop :=
+  forall l1 b l2, B = l1 ++ b :: l2 -> forall c, In c l2 -> better v b c.
+
+Lemma decr_tail v b B : decr v (b :: B) -> decr v B.
+Proof. intros H l1 x l2 E c Hc. apply (H (b :: l1) x l2); [now rewrite E|assumption]. Qed.
+
+Lemma decr_unique v B : forall B', decr v B -> decr v B' -> Permutation B B' -> B = B'.
+Proof.
+  induction B as [|b B IH]; intros B' H1 H2 Hp.
+  - apply Permutation_nil in Hp. now subst.
+  - destruct B' as [|b' B']; [apply Permutation_sym, Permutation_nil in Hp; discriminate|].
+    assert (Eb : b = b').
+    { assert (Hin : In b (b' :: B')) by (eapply Permutation_in; [exact Hp|now left]).
+      assert (Hin' : In b' (b :: B)) by (eapply Permutation_in; [apply Permutation_sym; exact Hp|now left]).
+      destruct Hin as [->|Hin]; [reflexivity|]. destruct Hin' as [->|Hin']; [reflexivity|].
+      pose proof (H1 [] b B eq_refl b' Hin') as A1. pose proof (H2 [] b' B' eq_refl b Hin) as A2.
+      unfold better in *. lia. }
+    subst b'. f_equal. apply IH; [eapply decr_tail; eauto|eapply decr_tail; eauto|].
+    eapply Permutation_cons_inv; eauto.
+Qed.
+
+Lemma filter_decr (f : N -> bool) v : NoDup v -> decr v (filter f v).
+Proof.
+  induction v as [|a v IH]; intros Hnd; [intros l1 b l2 E; destruct l1; discriminate|].
+  inversion Hnd as [|? ? Hn Hnd']; subst.
+  assert (Hshift : forall l1 b l2, filter f v = l1 ++ b :: l2 -> forall c, In c l2 -> better (a :: v) b c).
+  { intros l1 b l2 E c Hc. pose proof (IH Hnd' l1 b l2 E c Hc) as Hb.
+    assert (Hbv : In b v).
+    { assert (H : In b (filter f v)) by (rewrite E; apply in_or_app; right; now left). apply filter_In in H. tauto. }
+    assert (Hcv : In c v).
+    { assert (H : In c (filter f v)) by (rewrite E; apply in_or_app; right; now right). apply filter_In in H. tauto. }
+    unfold better in *. simpl.
+    destruct (N.eqb b a) eqn:E1; [apply N.eqb_eq in E1; subst; contradiction|].
+    destruct (N.eqb c a) eqn:E2; [apply N.eqb_eq in E2; subst; contradiction|]. lia. }
+  simpl. destruct (f a) eqn:Fa; [|exact Hshift].
+  intros l1 b l2 E c Hc. destruct l1 as [|a' l1]; simpl in E.
+  - injection E as <- <-. assert (Hcv : In c v) by (apply filter_In in Hc; tauto).
+    unfold better. simpl. rewrite N.eqb_refl.
+    destruct (N.eqb c a) eqn:E2; [apply N.eqb_eq in E2; subst; contradiction|]. lia.
+  - injection E as <- E. now apply (Hshift l1 b l2 E).
+Qed.
+
+(* ---------------------------------------------------------------------------------------------- *)
 (* the run on a well-formed strict profile                                                         *)
 
 Lemma upd1 p x : NoDup p -> p <> [] -> last p 0%N = x ->
@@ -999,6 +1148,294 @@ Proof.
   { apply filter_ext. intros a. now rewrite Enp. }
   rewrite E2. eapply perm_trans; [apply Permutation_app_tail; exact E1|]. unfold P.
   rewrite <- !app_assoc. apply Permutation_app_head. apply Permutation_app_head. apply Permutation_app_comm.
+Qed.
+
+(* ---- completeness: the profile is single-peaked on some completion of the placed part ---- *)
+Definition SPextL (ol rl or_ : list N) : Prop :=
+  exists M, Permutation M rl /\ forall v, In v prefs -> vf v (ol ++ M ++ or_).
+
+Lemma SPextL_mirror ol rl or_ : SPextL ol rl or_ -> SPextL (rev or_) rl (rev ol).
+Proof.
+  intros (M & HM & H). exists (rev M). split.
+  - eapply perm_trans; [apply Permutation_sym, Permutation_rev|exact HM].
+  - intros v Hv. specialize (H v Hv). apply vf_rev in H.
+    rewrite !rev_app_distr in H. rewrite <- app_assoc in H. exact H.
+Qed.
+
+Lemma perm_remove_head (x : N) M' rl rl' : NoDup rl -> NoDup rl' -> Permutation (x :: M') rl ->
+  (forall d, In d rl' <-> In d rl /\ d <> x) -> Permutation M' rl'.
+Proof.
+  intros N1 N2 HP Hrl'. assert (NM : NoDup (x :: M')) by (eapply Permutation_NoDup; [apply Permutation_sym; exact HP|exact N1]).
+  inversion NM as [|? ? Hx NM']; subst. apply NoDup_Permutation; auto.
+  intros d. rewrite Hrl'. split.
+  - intros Hd. split; [eapply Permutation_in; [exact HP|now right]|]. intros ->. contradiction.
+  - intros [Hd Hne']. eapply Permutation_in in Hd; [|apply Permutation_sym; exact HP].
+    destruct Hd as [->|Hd]; [congruence|assumption].
+Qed.
+
+Lemma ext_left ol rl rl' or_ x : NoDup rl -> NoDup rl' -> SPextL ol rl or_ -> In x rl ->
+  (forall v, In v prefs -> forall r, In r rl -> r <> x -> better v r x) ->
+  (forall d, In d rl' <-> In d rl /\ d <> x) ->
+  ((forall v, In v prefs -> forall b p, In b rl -> In p (ol ++ or_) -> better v b p) \/
+   (exists v c, In v prefs /\ In c or_ /\ better v c x)) ->
+  SPextL (ol ++ [x]) rl' or_.
+Proof.
+  intros N1 N2 (M & HM & H) Hx Hw Hrl' Alt.
+  assert (NM : NoDup M) by (eapply Permutation_NoDup; [apply Permutation_sym; exact HM|exact N1]).
+  assert (HxM : In x M) by (eapply Permutation_in; [apply Permutation_sym; exact HM|exact Hx]).
+  assert (Hfirst : forall M', M = x :: M' -> SPextL (ol ++ [x]) rl' or_).
+  { intros M' ->. exists M'. split; [apply (perm_remove_head x M' rl rl' N1 N2 HM Hrl')|].
+    intros v Hv. specialize (H v Hv). rewrite <- app_assoc. exact H. }
+  destruct prefs as [|v0 rest] eqn:Ep; [congruence|]. rewrite <- Ep in *.
+  assert (Hv0 : In v0 prefs) by (rewrite Ep; now left).
+  destruct (vf_worst_end v0 M x NM (vf_block v0 ol M or_ (H v0 Hv0)) HxM) as [(M' & E)|(M' & E)].
+  { intros r Hr Hne'. apply Hw; auto. eapply Permutation_in; eauto. }
+  - now apply (Hfirst M').
+  - destruct M' as [|m M'']; [apply (Hfirst []); exact E|].
+    destruct Alt as [Habove|(v & c & Hv & Hc & Hb)].
+    + subst M. exists (rev (m :: M'')). split.
+      * apply (perm_remove_head x _ rl rl' N1 N2); auto.
+        eapply perm_trans; [|exact HM].
+        eapply perm_trans; [apply perm_skip, Permutation_sym, Permutation_rev|apply Permutation_cons_append].
+      * intros v Hv. specialize (H v Hv). apply vf_rev_block in H.
+        -- rewrite rev_app_distr in H. simpl rev at 1 in H. simpl app in H. rewrite <- app_assoc. exact H.
+        -- intros b p Hb Hp. apply (Habove v Hv); auto. eapply Permutation_in; eauto.
+    + exfalso. subst M. specialize (H v Hv).
+      apply (H (ol ++ m :: M'') x or_) with (a := m) (c := c).
+      * rewrite <- !app_assoc. reflexivity.
+      * apply in_or_app. right. now left.
+      * exact Hc.
+      * split; [|exact Hb]. apply Hw; auto.
+        -- eapply Permutation_in; [exact HM|now left].
+        -- intros ->. apply NoDup_app_disj with (x := x) in NM; [assumption|now left|now left].
+Qed.
+
+Lemma ext_right ol rl rl' or_ x : NoDup rl -> NoDup rl' -> SPextL ol rl or_ -> In x rl ->
+  (forall v, In v prefs -> forall r, In r rl -> r <> x -> better v r x) ->
+  (forall d, In d rl' <-> In d rl /\ d <> x) ->
+  ((forall v, In v prefs -> forall b p, In b rl -> In p (ol ++ or_) -> better v b p) \/
+   (exists v c, In v prefs /\ In c ol /\ better v c x)) ->
+  SPextL ol rl' (x :: or_).
+Proof.
+  intros N1 N2 HS Hx Hw Hrl' Alt. apply SPextL_mirror in HS.
+  assert (H : SPextL (rev or_ ++ [x]) rl' (rev ol)).
+  { apply (ext_left _ rl); auto. destruct Alt as [Ha|(v & c & Hv & Hc & Hb)].
+    - left. intros v Hv b p Hb Hp. apply (Ha v Hv); auto. apply in_app_or in Hp. apply in_or_app.
+      destruct Hp as [Hp|Hp]; [right|left]; now apply in_rev.
+    - right. exists v, c. split; [assumption|]. split; [now apply -> in_rev|assumption]. }
+  apply SPextL_mirror in H. rewrite rev_involutive, rev_app_distr, rev_involutive in H. exact H.
+Qed.
+
+Definition at_end (M : list N) (e : N) : Prop := (exists M', M = e :: M') \/ (exists M', M = M' ++ [e]).
+
+Lemma ext_at_end ol rl or_ M e : NoDup rl -> Permutation M rl -> (forall v, In v prefs -> vf v (ol ++ M ++ or_)) ->
+  In e rl -> (exists v, In v prefs /\ forall r, In r rl -> r <> e -> better v r e) -> at_end M e.
+Proof.
+  intros N1 HM H He (v & Hv & Hw).
+  assert (NM : NoDup M) by (eapply Permutation_NoDup; [apply Permutation_sym; exact HM|exact N1]).
+  apply (vf_worst_end v M e NM (vf_block v ol M or_ (H v Hv))).
+  - eapply Permutation_in; [apply Permutation_sym; exact HM|exact He].
+  - intros r Hr Hne'. apply Hw; auto. eapply Permutation_in; eauto.
+Qed.
+
+Lemma ends_shape (M : list N) a b : a <> b -> at_end M a -> at_end M b ->
+  (exists M'', M = a :: M'' ++ [b]) \/ (exists M'', M = b :: M'' ++ [a]).
+Proof.
+  intros Hab [(M1 & E1)|(M1 & E1)] [(M2 & E2)|(M2 & E2)].
+  - rewrite E1 in E2. injection E2 as E2 _. congruence.
+  - left. rewrite E1 in E2. destruct M2 as [|a' M2]; simpl in E2.
+    + injection E2 as E2 _. congruence.
+    + injection E2 as <- E2. exists M2. now rewrite E1, E2.
+  - right. rewrite E2 in E1. destruct M1 as [|b' M1]; simpl in E1.
+    + injection E1 as E1 _. congruence.
+    + injection E1 as <- E1. exists M1. now rewrite E2, E1.
+  - rewrite E1 in E2. apply app_inj_tail in E2. destruct E2 as [_ E2]. congruence.
+Qed.
+
+Definition forbids_ba (ol or_ : list N) (v : list N) (a b : N) : Prop :=
+  (exists c, In c or_ /\ better v c a /\ better v b a) \/ (exists p, In p ol /\ better v p b /\ better v a b).
+
+Lemma not_shape_ba ol or_ v a b M'' : vf v (ol ++ (b :: M'' ++ [a]) ++ or_) -> forbids_ba ol or_ v a b -> False.
+Proof.
+  intros H [(c & Hc & H1 & H2)|(p & Hp & H1 & H2)].
+  - apply (H (ol ++ b :: M'') a or_) with (a := b) (c := c); auto.
+    + rewrite <- !app_assoc. simpl. rewrite <- app_assoc. reflexivity.
+    + apply in_or_app. right. now left.
+  - apply (H ol b ((M'' ++ [a]) ++ or_)) with (a := p) (c := a); auto.
+    apply in_or_app. left. apply in_or_app. right. now left.
+Qed.
+
+Lemma perm_remove_ends (a b : N) M'' rl rl' : NoDup rl -> NoDup rl' -> Permutation (a :: M'' ++ [b]) rl ->
+  (forall d, In d rl' <-> In d rl /\ d <> a /\ d <> b) -> Permutation M'' rl'.
+Proof.
+  intros N1 N2 HP Hrl'.
+  assert (NM : NoDup (a :: M'' ++ [b])) by (eapply Permutation_NoDup; [apply Permutation_sym; exact HP|exact N1]).
+  inversion NM as [|? ? Ha NM']; subst.
+  assert (Hb : ~ In b M'') by (intros Hb; eapply NoDup_app_disj; [exact NM'|exact Hb|now left]).
+  apply NoDup_Permutation; auto; [now apply NoDup_app_l in NM'|].
+  intros d. rewrite Hrl'. split.
+  - intros Hd. split; [|split].
+    + eapply Permutation_in; [exact HP|]. right. apply in_or_app. now left.
+    + intros ->. apply Ha. apply in_or_app. now left.
+    + intros ->. contradiction.
+  - intros (Hd & D1 & D2). eapply Permutation_in in Hd; [|apply Permutation_sym; exact HP].
+    destruct Hd as [->|Hd]; [congruence|]. apply in_app_or in Hd. destruct Hd as [Hd|[->|[]]]; [assumption|congruence].
+Qed.
+
+Lemma ext_pair ol rl rl' or_ a b : NoDup rl -> NoDup rl' -> SPextL ol rl or_ -> In a rl -> In b rl -> a <> b ->
+  (exists v, In v prefs /\ forall r, In r rl -> r <> a -> better v r a) ->
+  (exists v, In v prefs /\ forall r, In r rl -> r <> b -> better v r b) ->
+  (forall d, In d rl' <-> In d rl /\ d <> a /\ d <> b) ->
+  ((forall v, In v prefs -> forall b' p, In b' rl -> In p (ol ++ or_) -> better v b' p) \/
+   (exists v, In v prefs /\ forbids_ba ol or_ v a b)) ->
+  SPextL (ol ++ [a]) rl' (b :: or_).
+Proof.
+  intros N1 N2 (M & HM & H) Ha Hb Hab Hwa Hwb Hrl' Alt.
+  destruct (ends_shape M a b Hab (ext_at_end ol rl or_ M a N1 HM H Ha Hwa) (ext_at_end ol rl or_ M b N1 HM H Hb Hwb))
+    as [(M'' & ->)|(M'' & ->)].
+  - exists M''. split; [apply (perm_remove_ends a b M'' rl rl' N1 N2 HM Hrl')|].
+    intros v Hv. specialize (H v Hv). rewrite <- !app_assoc in *. simpl in *. rewrite <- app_assoc in H. exact H.
+  - destruct Alt as [Habove|(v & Hv & Hf)].
+    + exists (rev M''). split.
+      * apply (perm_remove_ends a b _ rl rl' N1 N2); auto.
+        assert (Er : rev (b :: M'' ++ [a]) = a :: rev M'' ++ [b]) by (simpl; rewrite rev_app_distr; reflexivity).
+        eapply perm_trans; [|exact HM]. rewrite <- Er. apply Permutation_sym, Permutation_rev.
+      * intros v Hv. specialize (H v Hv). apply vf_rev_block in H.
+        -- assert (Er : rev (b :: M'' ++ [a]) = a :: rev M'' ++ [b]) by (simpl; rewrite rev_app_distr; reflexivity).
+           rewrite Er in H. rewrite <- !app_assoc. simpl. simpl in H. rewrite <- app_assoc in H. exact H.
+        -- intros b' p Hb' Hp. apply (Habove v Hv); auto. eapply Permutation_in; eauto.
+    + exfalso. eapply not_shape_ba; [apply (H v Hv)|exact Hf].
+Qed.
+
+Lemma ext_contra_pair ol rl or_ a b : NoDup rl -> SPextL ol rl or_ -> In a rl -> In b rl -> a <> b ->
+  (exists v, In v prefs /\ forall r, In r rl -> r <> a -> better v r a) ->
+  (exists v, In v prefs /\ forall r, In r rl -> r <> b -> better v r b) ->
+  (exists v, In v prefs /\ forbids_ba ol or_ v a b) -> (exists v, In v prefs /\ forbids_ba ol or_ v b a) -> False.
+Proof.
+  intros N1 (M & HM & H) Ha Hb Hab Hwa Hwb (v & Hv & F1) (v' & Hv' & F2).
+  destruct (ends_shape M a b Hab (ext_at_end ol rl or_ M a N1 HM H Ha Hwa) (ext_at_end ol rl or_ M b N1 HM H Hb Hwb))
+    as [(M'' & ->)|(M'' & ->)].
+  - eapply not_shape_ba; [apply (H v' Hv')|exact F2].
+  - eapply not_shape_ba; [apply (H v Hv)|exact F1].
+Qed.
+
+Lemma ext_contra_single ol rl or_ x m : NoDup rl -> SPextL ol rl or_ -> In x rl -> In m rl -> m <> x ->
+  (forall v, In v prefs -> forall r, In r rl -> r <> x -> better v r x) ->
+  (exists v c, In v prefs /\ In c or_ /\ better v c x) -> (exists v p, In v prefs /\ In p ol /\ better v p x) -> False.
+Proof.
+  intros N1 (M & HM & H) Hx Hm Hmx Hw (v & c & Hv & Hc & Hbc) (v' & p & Hv' & Hp & Hbp).
+  assert (HmM : In m M) by (eapply Permutation_in; [apply Permutation_sym; exact HM|exact Hm]).
+  destruct (ext_at_end ol rl or_ M x N1 HM H Hx) as [(M' & ->)|(M' & ->)].
+  { exists v. split; [assumption|]. intros r Hr Hne'. now apply Hw. }
+  - destruct HmM as [->|HmM]; [congruence|].
+    apply (H v' Hv' ol x (M' ++ or_)) with (a := p) (c := m).
+    + reflexivity.
+    + exact Hp.
+    + apply in_or_app. now left.
+    + split; [assumption|]. now apply Hw.
+  - apply in_app_or in HmM. destruct HmM as [HmM|[->|[]]]; [|congruence].
+    apply (H v Hv (ol ++ M') x or_) with (a := m) (c := c).
+    + now rewrite <- !app_assoc.
+    + apply in_or_app. now right.
+    + exact Hc.
+    + split; [|assumption]. now apply Hw.
+Qed.
+
+Lemma ext_three ol rl or_ x y z : NoDup rl -> SPextL ol rl or_ -> x <> y -> x <> z -> y <> z ->
+  In x rl -> In y rl -> In z rl ->
+  (exists v, In v prefs /\ forall r, In r rl -> r <> x -> better v r x) ->
+  (exists v, In v prefs /\ forall r, In r rl -> r <> y -> better v r y) ->
+  (exists v, In v prefs /\ forall r, In r rl -> r <> z -> better v r z) -> False.
+Proof.
+  intros N1 (M & HM & H) Hxy Hxz Hyz Hx Hy Hz Wx Wy Wz.
+  pose proof (ext_at_end ol rl or_ M x N1 HM H Hx Wx) as Ex.
+  pose proof (ext_at_end ol rl or_ M y N1 HM H Hy Wy) as Ey.
+  pose proof (ext_at_end ol rl or_ M z N1 HM H Hz Wz) as Ez.
+  assert (Hsame : forall e e', at_end M e -> at_end M e' -> e <> e' ->
+            ((exists M', M = e :: M') /\ (exists M', M = M' ++ [e'])) \/
+            ((exists M', M = e' :: M') /\ (exists M', M = M' ++ [e]))).
+  { intros e e' [(M1 & E1)|(M1 & E1)] [(M2 & E2)|(M2 & E2)] Hne'.
+    - rewrite E1 in E2. injection E2 as E2 _. congruence.
+    - left. eauto.
+    - right. eauto.
+    - rewrite E1 in E2. apply app_inj_tail in E2. destruct E2 as [_ E2]. congruence. }
+  destruct (Hsame x y Ex Ey Hxy) as [[(A1 & EA1) (A2 & EA2)]|[(A1 & EA1) (A2 & EA2)]];
+  destruct (Hsame x z Ex Ez Hxz) as [[(B1 & EB1) (B2 & EB2)]|[(B1 & EB1) (B2 & EB2)]].
+  - rewrite EA2 in EB2. apply app_inj_tail in EB2. destruct EB2 as [_ E]. congruence.
+  - rewrite EA1 in EB1. injection EB1 as E _. congruence.
+  - rewrite EA1 in EB1. injection EB1 as E _. congruence.
+  - rewrite EA1 in EB1. injection EB1 as E _. congruence.
+Qed.
+
+Lemma ext_drev ol rl or_ xi z w v (f : N -> bool) :
+  NoDup rl -> SPextL ol rl or_ -> In xi ol -> In v prefs -> In z rl -> In w rl -> z <> w ->
+  (exists u, In u prefs /\ forall r, In r rl -> r <> z -> better u r z) ->
+  (exists u, In u prefs /\ forall r, In r rl -> r <> w -> better u r w) ->
+  Permutation (filter f v) rl -> (forall r, In r rl -> In r v) ->
+  better v xi w -> better v w z ->
+  forall u, In u prefs -> vf u (ol ++ filter f v ++ or_).
+Proof.
+  intros N1 (M & HM & H) Hxi Hv Hz Hw Hzw Wz Ww Hperm Hinv B1 B2.
+  assert (NM : NoDup M) by (eapply Permutation_NoDup; [apply Permutation_sym; exact HM|exact N1]).
+  assert (HinM : forall r, In r M -> In r v).
+  { intros r Hr. apply Hinv. eapply Permutation_in; [exact HM|exact Hr]. }
+  assert (Htot : forall p q, In p M -> In q M -> p <> q -> better v p q \/ better v q p).
+  { intros p q Hp Hq Hpq. assert (idxN v p <> idxN v q).
+    { intros E. apply Hpq. apply (idxN_inj v p q (HinM p Hp) (HinM q Hq) E). }
+    unfold better. lia. }
+  destruct (ends_shape M w z (not_eq_sym Hzw) (ext_at_end ol rl or_ M w N1 HM H Hw Ww) (ext_at_end ol rl or_ M z N1 HM H Hz Wz))
+    as [(M'' & EM)|(M'' & EM)].
+  2:{ exfalso. subst M. apply (H v Hv ol z ((M'' ++ [w]) ++ or_)) with (a := xi) (c := w).
+      - reflexivity.
+      - exact Hxi.
+      - apply in_or_app. left. apply in_or_app. right. now left.
+      - split; [unfold better in *; lia|exact B2]. }
+  assert (Hbest : forall b', In b' (M'' ++ [z]) -> better v w b').
+  { intros b' Hb'. assert (Hne' : w <> b').
+    { intros ->. rewrite EM in NM. inversion NM; subst. contradiction. }
+    destruct (Htot w b') as [Hb|Hb]; auto.
+    - rewrite EM. now left.
+    - rewrite EM. now right.
+    - exfalso. rewrite EM in H. apply (H v Hv ol w ((M'' ++ [z]) ++ or_)) with (a := xi) (c := b').
+      + reflexivity.
+      + exact Hxi.
+      + apply in_or_app. now left.
+      + split; assumption. }
+  assert (Hdec : decr v M).
+  { intros l1 b l2 E c Hc. destruct l1 as [|x0 l1].
+    - simpl in E. rewrite EM in E. injection E as <- E. apply Hbest. rewrite E. exact Hc.
+    - assert (Ex0 : x0 = w) by (rewrite EM in E; simpl in E; injection E as E1 _; congruence). subst x0.
+      assert (Hb_in : In b (M'' ++ [z])).
+      { rewrite EM in E. simpl in E. injection E as E. rewrite E. apply in_or_app. right. now left. }
+      assert (Hbc : b <> c).
+      { intros ->. rewrite E in NM. apply NoDup_app_r in NM. inversion NM; subst. contradiction. }
+      destruct (Htot b c) as [Hb|Hb]; auto.
+      + rewrite E. apply in_or_app. right. now left.
+      + rewrite E. apply in_or_app. right. now right.
+      + exfalso. rewrite E in H. apply (H v Hv (ol ++ w :: l1) b (l2 ++ or_)) with (a := w) (c := c).
+        * rewrite <- !app_assoc. reflexivity.
+        * apply in_or_app. right. now left.
+        * apply in_or_app. now left.
+        * split; [now apply Hbest|exact Hb]. }
+  assert (EMf : M = filter f v).
+  { apply (decr_unique v); auto.
+    - apply filter_decr. eapply Permutation_NoDup; [apply (Hwf v Hv)|exact Hnd].
+    - eapply perm_trans; [exact HM|apply Permutation_sym; exact Hperm]. }
+  intros u Hu. rewrite <- EMf. now apply H.
+Qed.
+
+Lemma ext_dfwd ol rl or_ xj z w v (f : N -> bool) :
+  NoDup rl -> SPextL ol rl or_ -> In xj or_ -> In v prefs -> In z rl -> In w rl -> z <> w ->
+  (exists u, In u prefs /\ forall r, In r rl -> r <> z -> better u r z) ->
+  (exists u, In u prefs /\ forall r, In r rl -> r <> w -> better u r w) ->
+  Permutation (filter f v) rl -> (forall r, In r rl -> In r v) ->
+  better v xj w -> better v w z ->
+  forall u, In u prefs -> vf u (ol ++ rev (filter f v) ++ or_).
+Proof.
+  intros N1 HS Hxj Hv Hz Hw Hzw Wz Ww Hperm Hinv B1 B2 u Hu.
+  apply SPextL_mirror in HS.
+  pose proof (ext_drev (rev or_) rl (rev ol) xj z w v f N1 HS (proj1 (in_rev _ _) Hxj) Hv Hz Hw Hzw Wz Ww Hperm Hinv B1 B2 u Hu) as H.
+  apply vf_rev in H. rewrite !rev_app_distr, !rev_involutive in H. rewrite <- app_assoc in H. exact H.
 Qed.
 
 (* ---- one round ---- *)
